@@ -69,5 +69,15 @@ add("C14", "fault_enumeration",
     "Wrappers read the original function/alt list from Ruler.__rules__; crash points are whole callback invocations (an exception raised in the middle of a library rule is not modelled).",
     "fault injection at enumerated callback invocations (Hypothesis-generated documents/configurations/reset_rules bodies); oracle: exception identity + instance vs. never-failed control",
     "DESIGN.md section 4, C14")
+add("C15", "exploration",
+    "Generated token streams (document x configuration, with meta-producing options on in a share); every token is round-tripped through as_dict/from_dict (both attribute formats; with/without children), the stream through SyntaxTreeNode (identical tokens back, walk == stream order, parent/sibling links, attribute proxies), and rendered twice, after a deep copy and after a dict round-trip, with identical output and unchanged tokens.",
+    "from_dict(as_dict(children=False)) is asserted for child-less tokens only (see DESIGN.md); rendering through md.renderer.render with the parse's env.",
+    "property-based testing (Hypothesis); oracle: round-trips (serialise/deserialise, tree/flatten), link-consistency invariants, idempotence of rendering",
+    "DESIGN.md section 4, C15")
+add("C16", "exploration",
+    "Generated cases of four kinds: seeded env == prepended definitions (HTML, references, duplicates; seeding twice); constructed documents whose definition line spans the harness knows (recorded exactly once with that span, first wins); label variants with equal case fold and blank-collapsed form must resolve; reference form vs inline form of one spelled (text, destination, title) triple must give identical children and HTML, for links and images.",
+    "Label matching asserted in one direction only; reference-vs-inline only when the reference form resolves (the converse asymmetry is counted).",
+    "property-based testing (Hypothesis; constructive definition/label/triple generators); oracle: metamorphic relation (seed == prepend), reference model of definition bookkeeping, differential reference-form vs inline-form",
+    "DESIGN.md section 4, C16")
 ALL = ["C%02d" % i for i in range(1, 21)]
 NA = [{"property_id": p, "reason": "check under construction in this round; not claimed until its oracle is built and shown quiet on the unchanged tree"} for p in ALL if p not in CHECKS]
